@@ -144,6 +144,7 @@ class Kind:
     def shape(self, x):               # histogram key
         return ""
     panic_not_modelled = False
+    no_model = False                  # True: no Coq model of this decoder, Go-side round trip only
     def focus(self, x):               # offset around which the malformed stream changes bytes
         return 0
     def skip_malformed(self, hx):     # malformed inputs on which the Go decoder is not a function of the input
@@ -381,9 +382,10 @@ class AttributeK(Kind):
     def invalid(self, rng):
         ok = self.gen(rng, 20)
         a = dict(ok, name="")
+        a2 = dict(ok, name="61" * 65535)
         b = dict(ok, dims=[])
         c = dict(ok, dt=dict(ok["dt"], **{"class": 0, "size": 3}))
-        return [a, b, c]
+        return [a, a2, b, c]
 
     def coq(self, x):
         return "{| at_name := %s; at_dt := %s; at_ds := %s; at_data := %s |}" % (
@@ -442,11 +444,7 @@ class SuperblockK(Kind):
         return [x["version"], 8, 8, 0, x["base"], x["root"], x["superext"] or U, 0, 0, 0]
     def shape(self, x):
         return "v=%d,ext0=%d,base0=%d" % (x["version"], x["superext"] == 0, x["base"] == 0)
-    def skip_malformed(self, hx):
-        # a version-0 image cut to 48..95 bytes: the reader takes the root addresses from whatever the pooled
-        # 128-byte buffer held before (reported as C17 material); not comparable with a model
-        b = bytes.fromhex(hx)
-        return 48 <= len(b) < 96 and b[:8] == bytes([137, 72, 68, 70, 13, 10, 26, 10]) and b[8] == 0
+
 
 
 def csbe(sb):
@@ -615,6 +613,31 @@ class LinkK(Kind):
         return [1, x["flags"], x["type"], x["corder"], x["charset"], x["name"], v]
     def shape(self, x):
         return "type=%d,flags=%02x,name=%d" % (x["type"], x["flags"] & 0x1F, len(x["name"]) // 2)
+
+
+class Link2K(LinkK):
+    """core.EncodeLinkMessage read by the second parser, structures.ParseLinkMessage (Go-side round trip only:
+    that parser has no Coq model)"""
+    name = "link2"
+    no_model = True
+
+    def gen(self, rng, i):
+        x = LinkK.gen(self, rng, i + 1)
+        if not x["name"]:
+            x["name"] = "6c"
+        if x["type"] == 1 and x["value"] == "0000":
+            x["value"] = "01002f"
+        return x
+    def invalid(self, rng):
+        return []
+    def proj(self, x):
+        addr, path = 0, ""
+        v = bytes.fromhex(x["value"])
+        if x["type"] == 0:
+            addr = int.from_bytes(v, "little")
+        elif x["type"] == 1:
+            path = v[2:].hex()
+        return [1, x["flags"], x["type"], x["name"], x["corder"], 1 if x["flags"] & 4 else 0, x["charset"], addr, path]
 
 
 class LinkInfoK(Kind):
@@ -871,10 +894,10 @@ class FilterPipeK(Kind):
 
 
 KINDS = [Dataspace(), Layout(), DatatypeK(), DatatypeVlen(), AttributeK(), SuperblockK(), OhdrV2(), OhdrV1(),
-         LinkK(), LinkInfoK(), AttrInfoK(), SymtabK(), CompoundK(), CompoundGreedy(), ArrayK(), EnumK(), FilterPipeK()]
+         LinkK(), Link2K(), LinkInfoK(), AttrInfoK(), SymtabK(), CompoundK(), CompoundGreedy(), ArrayK(), EnumK(), FilterPipeK()]
 
 # kinds whose encoder/decoder pair is known not to round-trip: id of the KNOWN_FINDINGS entry
-KNOWN_ROUNDTRIP = {"ohdr_v1": "C11-ohdr-v1-size-field",
+KNOWN_ROUNDTRIP = {"ohdr_v1": "C11-ohdr-v1-size-field",            # only when the probe finds the unrepaired size field
                    "compound_greedy_member": "C11-compound-member-extent"}
 
 
@@ -961,6 +984,8 @@ def run(ctx):
             got = goval(r["dec"])
             if not K.rt_ok(x, got):
                 rt_bad.append((x, r, want, got))
+            if K.no_model:
+                continue
             # gate 1: bytes vs model, and wf must hold for every generated value
             exprs.append(("enc", "bytes_eqb (%s) %s" % (K.enc_expr(x), cbytes(r["enc"])), (x, r)))
             if K.wf_expr(x):
@@ -984,7 +1009,7 @@ def run(ctx):
                     failing_input=dict(kind=K.name, value=K.go(x), sb=x.get("_sb")),
                     encoded=r.get("enc"), decoded=got, expected=want))
         # malformed stream
-        srcs = [(x, r) for x, r in zip(vals, res[:len(vals)]) if r.get("enc") is not None and len(r["enc"]) <= 400][:n_mal_src]
+        srcs = [(x, r) for x, r in zip(vals, res[:len(vals)]) if r.get("enc") is not None and len(r["enc"]) <= 400][:0 if K.no_model else n_mal_src]
         mal = []
         skipped_mal = 0
         for x, r in srcs:
